@@ -2,6 +2,8 @@ import Ruint.Model.Pow
 import Ruint.Gen.WordsValue
 import Ruint.Model.Log
 import Ruint.Model.Root
+import Ruint.Gen.WordsLog
+import Ruint.Gen.WordsRoot
 /-! Driver for C13: evaluates the models (`Ruint.Pow.*`, `Ruint.Log.*`, `Ruint.Root.*`) and the spec
     (independent ℕ arithmetic). The float-derived first guesses of `log`/`root` are read from the
     implementation's output line (`e<hex>` / `g<hex>`), the models run **from that estimate**, and the
@@ -20,6 +22,23 @@ def resOpt : Res (Option Nat) → String → String
   | .ok none, _ => "none"
   | .panic, _ => "panic"
   | .fuel, _ => "timeout"
+
+/-- the generated functions (`Gen/WordsLog`, `Gen/WordsRoot`) are the model column; `none` = panic. A run on which the
+    hand model runs out of fuel is reported as `timeout` (the ties `gen_log_eq` / `gen_root_eq` are stated off that case). -/
+def genNat {α : Type} (hand : Res α) (g : Option Nat) (tag : String) : String :=
+  match hand with
+  | .fuel => "timeout"
+  | _ => match g with
+    | some r => toHex r ++ " " ++ tag
+    | none => "panic"
+
+def genOpt {α : Type} (hand : Res α) (g : Option (Option Nat)) (tag : String) : String :=
+  match hand with
+  | .fuel => "timeout"
+  | _ => match g with
+    | some (some r) => "some " ++ toHex r ++ " " ++ tag
+    | some none => "none"
+    | none => "panic"
 
 /-- the `e<hex>` / `g<hex>` token of the implementation's output, if any (`-` = not reached). -/
 def tapOf (impl : String) (c : Char) : Option (Option Nat) :=
@@ -74,26 +93,28 @@ def handleLog (op : String) (bits x base : Nat) (impl : String) : String × Stri
     match tap with
     | some (some e) =>
       let tag := "e" ++ toHex e
+      let f := e + bits + 3
       let m := match op with
-        | "log" => resNat (Log.log bits x base e) tag
-        | "clog" => resOpt (checkedLog bits x base e) tag
-        | "log2" => resNat (Log.log2 bits x e) tag
-        | "log10" => resNat (Log.log10 bits x e) tag
-        | "clog2" => resOpt (checkedLog2 bits x e) tag
-        | _ => resOpt (checkedLog10 bits x e) tag
+        | "log" => genNat (Log.log bits x base e) (Ruint.Gen.val_log f bits 0 x base e) tag
+        | "clog" => genOpt (checkedLog bits x base e) (Ruint.Gen.val_checked_log f bits 0 x base e) tag
+        | "log2" => genNat (Log.log2 bits x e) (Ruint.Gen.val_log2 f bits 0 x e) tag
+        | "log10" => genNat (Log.log10 bits x e) (Ruint.Gen.val_log10 f bits 0 x e) tag
+        | "clog2" => genOpt (checkedLog2 bits x e) (Ruint.Gen.val_checked_log2 f bits 0 x e) tag
+        | _ => genOpt (checkedLog10 bits x e) (Ruint.Gen.val_checked_log10 f bits 0 x e) tag
       (m, spec)
     | _ =>
       -- the model reaches the float estimate but the implementation reported none: if it panicked / timed
       -- out the spec column already says so; a correct value without an estimate is a broken correspondence
       (if spec.startsWith "pred:false" then "skip" else "needs-estimate", spec)
   else
+    let f := bits + 3
     let m := match op with
-      | "log" => resNat (Log.log bits x base 0) "e-"
-      | "clog" => resOpt (checkedLog bits x base 0) "e-"
-      | "log2" => resNat (Log.log2 bits x 0) "e-"
-      | "log10" => resNat (Log.log10 bits x 0) "e-"
-      | "clog2" => resOpt (checkedLog2 bits x 0) "e-"
-      | _ => resOpt (checkedLog10 bits x 0) "e-"
+      | "log" => genNat (Log.log bits x base 0) (Ruint.Gen.val_log f bits 0 x base 0) "e-"
+      | "clog" => genOpt (checkedLog bits x base 0) (Ruint.Gen.val_checked_log f bits 0 x base 0) "e-"
+      | "log2" => genNat (Log.log2 bits x 0) (Ruint.Gen.val_log2 f bits 0 x 0) "e-"
+      | "log10" => genNat (Log.log10 bits x 0) (Ruint.Gen.val_log10 f bits 0 x 0) "e-"
+      | "clog2" => genOpt (checkedLog2 bits x 0) (Ruint.Gen.val_checked_log2 f bits 0 x 0) "e-"
+      | _ => genOpt (checkedLog10 bits x 0) (Ruint.Gen.val_checked_log10 f bits 0 x 0) "e-"
     (m, spec)
 
 def handleRoot (bits x k : Nat) (impl : String) : String × String :=
@@ -103,12 +124,12 @@ def handleRoot (bits x k : Nat) (impl : String) : String × String :=
     | some (some r) => r == s
     | _ => false
   if !reach then
-    let m := resNat (root bits x k 0) "g-"
+    let m := genNat (root bits x k 0) (Ruint.Gen.val_root (rootFuel x 0 + bits + 3) bits 0 x k 0) "g-"
     (m, if k = 0 then "any" else if valOk then "pred:true" else "pred:false want " ++ toHex s)
   else
     match tapOf impl 'g' with
     | some (some g) =>
-      let m := resNat (root bits x k g) ("g" ++ toHex g)
+      let m := genNat (root bits x k g) (Ruint.Gen.val_root (rootFuel x g + bits + 3) bits 0 x k g) ("g" ++ toHex g)
       let spec :=
         if !valOk then "pred:false want " ++ toHex s
         else if guessOk bits x k g s then "pred:true"
